@@ -14,6 +14,7 @@ func init() {
 	suites["C04"] = func(r *Run) { streamSuite(r, "C04") }
 	suites["C05"] = func(r *Run) { streamSuite(r, "C05") }
 	suites["C08"] = func(r *Run) { streamSuite(r, "C08") }
+	suites["C06"] = suiteC06
 }
 
 // relevantGoroutines counts goroutines with library frames on their stack.
@@ -324,5 +325,28 @@ func streamSuite(r *Run, prop string) {
 			r.Violate("stream/goroutine-leak", "after a call has completed and been consumed no goroutine of the library remains", sprintf("%d library goroutines remain (baseline %d)", left, baseline), map[string]interface{}{"op": "goroutine-census"}, "")
 		}
 	}
+	if prop != "C01" {
+		unarySuite(r, prop)
+	}
 	extraChecks(r, prop)
+}
+
+// unarySuite: scripted in-process unary calls (Invoke) with schedule-point holds, accepted by the
+// explorer over InprocUnary.step, judged by the unary clauses of the property.
+func unarySuite(r *Run, prop string) {
+	rng := r.Rng.Fork("unary")
+	n := r.Budget(200, 4000)
+	for i := 0; i < n; i++ {
+		o := iuOpts{steps: 3 + rng.Intn(8), allowHolds: i%2 == 0, allowStall: prop == "C06" || i%7 == 3}
+		sc := runUnaryScript(rng, o)
+		r.Op(sc.line(), "observed")
+		r.TracesOnImpl++
+		r.Count("transport:inproc-unary")
+		nt := unaryOracle(r, prop, sc)
+		r.Eval(sc.line(), nt)
+		if nt && r.Dist["unary-samples"] < 2 {
+			r.Dist["unary-samples"]++
+			r.Sample(sc.desc())
+		}
+	}
 }
